@@ -30,7 +30,7 @@ func runC30(c *core.Ctx) error {
 		return err
 	}
 	defer l.Close()
-	bases, err := chooseBases(c, l, 11, c.Pick(2, 40), c.Pick(200, 500))
+	bases, err := chooseBases(c, l, 12, c.Pick(2, 40), c.Pick(200, 500))
 	if err != nil {
 		return err
 	}
